@@ -105,6 +105,8 @@ type expect struct {
 	mapRes  map[int]int // BulkGet / All
 	list    []int
 	isList  bool
+	// iteration during which the clock advanced: the keys live before the advance (list = the keys live after it)
+	listBefore []int
 	entry   bool // compare entry fields with the model entry after the op
 	removed []expEvent
 	// removals that may or may not happen (implementation-defined): if reported, the model follows
@@ -346,6 +348,14 @@ func (m *Model) Step(op string, res OpResult, hooks []CalcCall, loads []LoadCall
 		for _, kk := range m.liveKeys() {
 			ex.mapRes[kk] = m.m[kk].val
 		}
+	case "alladv", "keysadv", "coldestadv", "hottestadv":
+		// the clock advances after the first element: the first one is judged at the old clock value, the rest at the new
+		ex.isList = true
+		ex.listBefore = m.liveKeys()
+		if d := atoi64(f[1]); d > 0 && m.now <= math.MaxInt64-d {
+			m.now += d
+		}
+		ex.list = m.liveKeys()
 	case "mkiter":
 		m.iterSnap = map[int]int{}
 		for _, kk := range m.liveKeys() {
@@ -465,8 +475,16 @@ func (m *Model) applyLoads(loads []LoadCall, allHooks []CalcCall) []expEvent {
 			}
 		}
 		if lc.Err == "loaderr" || lc.Err == "panic" {
+			// a failed (re)load leaves the entry and its expiry untouched; only the refresh calculator's
+			// after-failure answer is followed (an expiry hook consulted here is not: a moved deadline is a mismatch)
 			for _, k := range lc.Keys {
-				m.applyHooks(k, hooksFor(hooks, k))
+				var rh []CalcCall
+				for _, h := range hooksFor(hooks, k) {
+					if strings.HasPrefix(h.Hook, "r") && h.Hook != "read" {
+						rh = append(rh, h)
+					}
+				}
+				m.applyHooks(k, rh)
 			}
 			continue
 		}
